@@ -109,6 +109,22 @@ theorem getElem?_insertIdx_self' {α} : ∀ (l : List α) (i : Nat) (a : α), i 
   | [], i + 1, _, h => by simp at h
   | x :: l, i + 1, a, h => by simp at h; simp [getElem?_insertIdx_self' l i a h]
 
+theorem set_insertIdx {α} : ∀ (l : List α) (i : Nat) (a b : α), i ≤ l.length →
+    (l.insertIdx i a).set i b = l.insertIdx i b
+  | _, 0, _, _, _ => by simp
+  | [], i + 1, _, _, h => by simp at h
+  | x :: l, i + 1, a, b, h => by simp at h; simp [set_insertIdx l i a b h]
+
+theorem insertIdx_length' {α} : ∀ (l : List α) (a : α), l.insertIdx l.length a = l ++ [a]
+  | [], _ => rfl
+  | x :: l, a => by simp [insertIdx_length' l a]
+
+theorem length_eraseIdx' {α} : ∀ (l : List α) (i : Nat), i < l.length →
+    (l.eraseIdx i).length + 1 = l.length
+  | [], _, h => by simp at h
+  | x :: l, 0, _ => by simp
+  | x :: l, i + 1, h => by simp at h; simp [length_eraseIdx' l i h]
+
 theorem setSheet_same {b : Book} {i : Nat} {s : Sheet} (h : getSheet b i = .ok s) :
     setSheet b i s = b := by
   have := getSheet_ok h
@@ -139,7 +155,7 @@ def allFrom (p : Int → Bool) : Nat → Int → Bool
     redo the operation exactly.  Outside it: `set_columns_width` / `set_rows_height` over a HIDDEN
     column/row (`get_column_width` answers 0 for it, and undo then stores 0 — finding F01c), states
     whose stored timezone/locale/frozen counts would themselves be rejected by the setters, and —
-    not yet proved — the three sheet-list operations. -/
+    not yet proved — `rename_sheet`. -/
 def dom (b : Book) : Op → Bool
   | .setName _ => true
   | .setTimezone _ => env.validTz b.tz
@@ -157,8 +173,16 @@ def dom (b : Book) : Op → Bool
   | .hideSheet _ => true
   | .unhideSheet _ => true
   | .renameSheet _ _ => false
-  | .newSheet => false
-  | .deleteSheet _ => false
+  | .newSheet =>
+    -- the generated name is valid and free (always true of `new_sheet`'s search; checked, not proved)
+    !b.sheets.isEmpty && isValidSheetName (mNewSheet env b).2.1 &&
+      !nameTaken env b (mNewSheet env b).2.1
+  | .deleteSheet i =>
+    -- the deleted sheet's name is valid and no other sheet has it (true of well-formed books)
+    match b.sheets[i]? with
+    | some sh => isValidSheetName sh.name &&
+        !nameTaken env { b with sheets := b.sheets.eraseIdx i } sh.name
+    | none => true
   | .setColumnsWidth s c1 c2 _ =>
     match b.sheets[s]? with
     | some sh => allFrom (fun c => !(sh.colAt c).hidden && decide (0 ≤ (sh.colAt c).width))
@@ -756,8 +780,51 @@ theorem op_chain (b : Book) (o : Op) (ds : List Diff) (hd : dom env b o = true)
       subst hp
       exact Chain.single env (linked1_setSheetState env hs)
   | renameSheet s n => simp [dom] at hd
-  | newSheet => simp [dom] at hd
-  | deleteSheet s => simp [dom] at hd
+  | newSheet =>
+    simp only [dom, Bool.and_eq_true, Bool.not_eq_true'] at hd
+    obtain ⟨⟨hne, hvalid⟩, hfree⟩ := hd
+    simp only [doOp, newSheet, done, Option.some.injEq] at hp ⊢
+    subst hp
+    refine Chain.single env ⟨?_, ?_⟩
+    · have hlen : b.sheets.length ≠ 0 := by
+        intro h0; cases hb : b.sheets <;> simp_all
+      simp only [back1, mDeleteSheet, mNewSheet, List.length_append, List.length_cons,
+        List.length_nil]
+      have h1 : ¬ (b.sheets.length + (0 + 1) = 1) := by omega
+      have h2 : ¬ (b.sheets.length ≥ b.sheets.length + (0 + 1)) := by omega
+      simp only [h1, h2, if_false, eraseIdx_snoc]
+    · simp only [fwd1, mInsertSheet, mNewSheet] at hvalid hfree ⊢
+      simp only [hvalid, hfree, Bool.not_true, Bool.false_eq_true, if_false,
+        Nat.lt_irrefl, gt_iff_lt, insertIdx_length']
+  | deleteSheet i =>
+    simp only [doOp, deleteSheet] at herr hp ⊢
+    cases hs : getSheet b i with
+    | error e => simp [hs, fail] at herr
+    | ok sh =>
+      have hsome := getSheet_ok hs
+      have hi : i < b.sheets.length := (List.getElem?_eq_some_iff.mp hsome).1
+      simp only [dom, hsome, Bool.and_eq_true, Bool.not_eq_true'] at hd
+      obtain ⟨hvalid, hfree⟩ := hd
+      simp only [hs, mDeleteSheet] at herr hp ⊢
+      by_cases h1 : b.sheets.length = 1
+      · simp [h1, fail] at herr
+      · have h2 : ¬ i ≥ b.sheets.length := by omega
+        simp only [h1, h2, if_false, done, Option.some.injEq] at hp ⊢
+        subst hp
+        refine Chain.single env ⟨?_, ?_⟩
+        · have hlen := length_eraseIdx' b.sheets i hi
+          have hle : ¬ i > (b.sheets.eraseIdx i).length := by omega
+          have hle' : i ≤ (b.sheets.eraseIdx i).length := by omega
+          simp only [back1, mInsertSheet, hvalid, hfree, Bool.not_true, Bool.false_eq_true,
+            if_false, hle]
+          simp only [getSheet, getElem?_insertIdx_self' _ _ _ hle', setSheet,
+            set_insertIdx _ _ _ _ hle']
+          have hsh : ({ emptySheet sh.name sh.id with
+              rowAt := sh.rowAt, colAt := sh.colAt, grid := sh.grid, frozenCols := sh.frozenCols,
+              frozenRows := sh.frozenRows, state := sh.state, color := sh.color } : Sheet) = sh := by
+            cases sh; rfl
+          rw [hsh, insertIdx_eraseIdx _ _ _ hsome]
+        · simp only [fwd1, mDeleteSheet, h1, h2, if_false]
   | setColumnsWidth s c1 c2 w =>
     simp only [doOp, setColumnsWidth] at herr hp ⊢
     cases hc : checkColsRange b s c1 c2 with
